@@ -74,7 +74,7 @@ theorem step_nodup (E : Env S) (g g' : Gen S) (out : Option Prog) (h : step E g 
             split at h
             · simp at h
             · rename_i s2 maxi' hsl
-              obtain ⟨hbank, hq2, hd2, hfront, hdone, hdone0, hmem, hlen, _⟩ := pop_expand E g.st s2 nt top q' args maxi maxi' hi.st hpop hargs hsl
+              obtain ⟨hbank, hq2, hd2, hfront, hdone, hdone0, hmem, hlen, _, _, _⟩ := pop_expand E g.st s2 nt top q' args maxi maxi' hi.st hpop hargs hsl
               have hin : ∀ nt' ci' p, inBank g.st nt' ci' p ↔ inBank s2 nt' ci' p :=
                 fun nt' ci' p => (inBank_of_bank_eq hbank nt' ci' p).symm
               have hn2 : NSt E s2 := by
